@@ -11,7 +11,7 @@
 //   set qpos|qvel|mocap_pos|mocap_quat v..    -> ok
 //   kin                    mj_kinematics; mj_comPos; mj_camlight
 //                          -> FK <model + state groups> -> xpos .. xquat .. xmat .. xanchor .. xaxis .. xipos .. ximat ..
-//                             geom_xpos .. geom_xmat .. site_xpos .. site_xmat .. cam_xpos .. cam_xmat ..
+//                             geom_xpos .. geom_xmat .. site_xpos .. site_xmat .. cam_xpos .. cam_xmat .. light_xpos .. light_xdir ..
 //                          (left of "->" is the op line of lean/Drivers/C07.lean, right the engine's result)
 //   integ dt v..           mj_integratePos(m, d->qpos, v, dt), in place   -> INTEG jnt_type .. qpos .. qvel .. dt .. -> qpos'
 //   diff dt q1.. q2..      mj_differentiatePos(m, qvel, dt, q1, q2)       -> DIFF jnt_type .. qpos1 .. qpos2 .. dt .. -> qvel
@@ -130,6 +130,8 @@ static void op_kin(void) {
   pivec("site_bodyid", m->site_bodyid, ns); pvec("site_pos", m->site_pos, 3 * ns); pvec("site_quat", m->site_quat, 4 * ns);
   pbvec("site_sameframe", m->site_sameframe, ns);
   pivec("cam_bodyid", m->cam_bodyid, nc); pvec("cam_pos", m->cam_pos, 3 * nc); pvec("cam_quat", m->cam_quat, 4 * nc);
+  int nl = (int)m->nlight;
+  pivec("light_bodyid", m->light_bodyid, nl); pvec("light_pos", m->light_pos, 3 * nl); pvec("light_dir", m->light_dir, 3 * nl);
   mj_kinematics(m, d);
   mj_comPos(m, d);
   mj_camlight(m, d);
@@ -140,6 +142,7 @@ static void op_kin(void) {
   pvec("geom_xpos", d->geom_xpos, 3 * ng); pvec("geom_xmat", d->geom_xmat, 9 * ng);
   pvec("site_xpos", d->site_xpos, 3 * ns); pvec("site_xmat", d->site_xmat, 9 * ns);
   pvec("cam_xpos", d->cam_xpos, 3 * nc); pvec("cam_xmat", d->cam_xmat, 9 * nc);
+  pvec("light_xpos", d->light_xpos, 3 * nl); pvec("light_xdir", d->light_xdir, 3 * nl);
   printf("\n");
 }
 
@@ -182,6 +185,7 @@ int main(void) {
         d = mj_makeData(m);
         int fixedcams = 1;
         for (int i = 0; i < m->ncam; i++) if (m->cam_mode[i] != mjCAMLIGHT_FIXED) fixedcams = 0;
+        for (int i = 0; i < m->nlight; i++) if (m->light_mode[i] != mjCAMLIGHT_FIXED) fixedcams = 0;
         printf("ok nq %d nv %d nbody %d njnt %d ngeom %d nsite %d ncam %d nmocap %d fixedcams %d", (int)m->nq, (int)m->nv,
                (int)m->nbody, (int)m->njnt, (int)m->ngeom, (int)m->nsite, (int)m->ncam, (int)m->nmocap, fixedcams);
         pivec("jnt_type", m->jnt_type, (int)m->njnt);   // lets the generator verify its joint order (bodies are renumbered depth-first)
@@ -260,6 +264,8 @@ int main(void) {
       pvec("body_ipos", m->body_ipos, 3 * nb); pvec("geom_pos", m->geom_pos, 3 * (int)m->ngeom);
       pvec("site_pos", m->site_pos, 3 * (int)m->nsite); pvec("cam_pos", m->cam_pos, 3 * (int)m->ncam);
       pivec("geom_type", m->geom_type, (int)m->ngeom); pbvec("body_simple", m->body_simple, nb);
+      pivec("light_bodyid", m->light_bodyid, (int)m->nlight); pvec("light_pos", m->light_pos, 3 * (int)m->nlight);
+      pvec("light_dir", m->light_dir, 3 * (int)m->nlight);
       pivec("eq_type", m->eq_type, (int)m->neq); pivec("eq_objtype", m->eq_objtype, (int)m->neq);
       pivec("eq_obj1id", m->eq_obj1id, (int)m->neq); pivec("eq_obj2id", m->eq_obj2id, (int)m->neq);
       pvec("jnt_range", m->jnt_range, 2 * nj); pvec("tendon_range", m->tendon_range, 2 * (int)m->ntendon);
